@@ -75,7 +75,7 @@ def plan(tier, seed):
     # real library classes as graphs (Dataset of every rank, ragged Vector)
     for r in range(16 if tier == "quick" else 200):
         specs.append({"kind": "library", "which": ["dataset", "dataset", "dataset", "vector"][r % 4], "compression": COMPRESSION[(r * 3) % 11]})
-    n = 300 if tier == "quick" else 5000
+    n = 300 if tier == "quick" else 4000
     for r in range(n):
         specs.append({"kind": "random", "compression": COMPRESSION[r % 11], "pathkind": "Path" if r % 2 else "str", "mode": "o" if r % 3 == 0 else "w", "auto": r % 5 == 0})
     return specs
